@@ -101,7 +101,7 @@ def main(tier, seed):
         if head != want:
             what = [kv for kv in head.split() if kv.endswith("=0")] or [head[:60]]
             names = {"made_nb=0": "adapt_io did not make the fd non-blocking", "finished=0": "a task awaiting the adapter never completed although the peer made progress (lost wake)",
-                     "bytes_ok=0": "the bytes read differ from the bytes written", "flags_ok=0": "the blocking mode was not restored after into_inner",
+                     "bytes_ok=0": "the bytes read differ from the bytes written", "flags_ok=0": "the blocking mode the fd had before was not restored after into_inner / after the adapter was dropped (seen through a duplicate of the fd)",
                      "epoll_clean=0": "the fd is still registered with the OS poller after the adapter was dropped/unwrapped",
                      "readapt=0": "the released fd could not be adapted again"}
             bad.append((c, o, [names.get(what[0], what[0])]))
